@@ -220,7 +220,13 @@ static int URI_FUNC(RemoveBaseUriImpl)(URI_TYPE(Uri) * dest,
 									&& !URI_FUNC(CompareRange)(&sourceSeg->text, &baseSeg->text)
 									/* The last segment of a path is not a directory: it is only
 									 * common to both paths if it is the last segment of both */
-									&& !((sourceSeg->next == NULL) != (baseSeg->next == NULL))) {
+									&& !((sourceSeg->next == NULL) != (baseSeg->next == NULL))
+									/* ... and an empty reference path inherits the query of the base,
+									 * which is only right if the source has a query of its own
+									 * or the base has none */
+									&& !((sourceSeg->next == NULL)
+										&& (absSource->query.first == NULL)
+										&& (absBase->query.first != NULL))) {
 	/* [23/50]	            A.path++; */
 								sourceSeg = sourceSeg->next;
 	/* [24/50]	            Base.path++; */
